@@ -16,7 +16,8 @@ ID = "C01"
 RULE = ("certified oriented manifold polygon meshes drawn from the surface zoo (tri/quad/mixed/polygon, genus 0-2, 0-6 border loops, "
         "1-2 components, renumbered, face-rotated, flipped); per mesh several fresh objects are driven through the full accessor script "
         "in different orders, each starting with a different accessor; non-trivial = at least 8 faces and at least one interior vertex; "
-        "distinct = distinct (vertex count, face list) hash")
+        "distinct = distinct (vertex count, face list) hash"
+        "; variants per case (see input_classes): rows as list/tuple/numpy, isolated vertex, user subclass, complete_edges_from_faces=False, switch-sorting-then-clear history, raw data with corner records (file / RawMeshData(mesh)) whose face list was edited before building")
 REQUIRED = {"conn": 5000, "order/batches": 500, "order_equal": 50}
 CASE_TIMEOUT = {"quick": 30.0, "thorough": 600.0}
 ASSUMPTIONS = ["inputs are oriented manifold polygon surfaces without unused vertices (certified by the reference analyser)",
